@@ -48,9 +48,10 @@ func c15Spec(name string) map[string]interface{} {
 		// a failing action sends the machine to a node of the author's choice (actionErrorNode)
 		return map[string]interface{}{"name": "Y", "actionErrorNode": "on", "nodes": map[string]interface{}{
 			"start": msgNode(br(map[string]interface{}{"inc": "?n"}, "toOn")),
-			"toOn":  act(`if (_.bindings["?n"] === "boom") { throw "boom"; } _.out({y: "on", from: _.props.mid}); return {count: _.bindings.count || 0};`, "on"),
+			// "since" is a Date: in a state it is whatever the interpreter exported, in a store it is text
+			"toOn":  act(`if (_.bindings["?n"] === "boom") { throw "boom"; } _.out({y: "on", from: _.props.mid}); return {count: _.bindings.count || 0, since: new Date(86400000)};`, "on"),
 			"on":    msgNode(br(map[string]interface{}{"inc": "?n"}, "toOff")),
-			"toOff": act(`_.out({y: "off", from: _.props.mid}); return {count: _.bindings.count || 0};`, "start"),
+			"toOff": act(`var s = _.bindings.since; _.out({y: "off", from: _.props.mid, since: (typeof s) + ":" + String(s), ms: (typeof s == "string") ? new Date(s).getTime() : "not text"}); return {count: _.bindings.count || 0};`, "start"),
 		}}
 	}
 	// Z: on {"boss":"recreate"} deletes m1 and creates it again (with spec X) within one ProcessMsg
@@ -84,6 +85,8 @@ var c15Ops = []c15Op{
 	{"create-m1-X", upd("m1", "X", nil)},
 	{"create-m2-Y", upd("m2", "Y", nil)},
 	{"state-m1", upd("m1", "", map[string]interface{}{"node": "start", "bs": map[string]interface{}{"count": 5.0}})},
+	// a state whose rendering is far beyond ten kilobytes (and the way back to a small one)
+	{"state-m1-big", upd("m1", "", map[string]interface{}{"node": "start", "bs": map[string]interface{}{"count": 5.0, "pad": strings.Repeat("0123456789abcdef", 800)}})},
 	{"spec-m1-Y", upd("m1", "Y", nil)},
 	{"delete-m1", func() interface{} { return map[string]interface{}{"to": "captain", "delete": []interface{}{"m1"}} }},
 	{"inc-all", func() interface{} { return map[string]interface{}{"inc": 1.0} }},
@@ -583,7 +586,7 @@ func C15(c *vh.Ctx) {
 		depth = c15DepthOverride
 	}
 	c.Bound("history_max", depth)
-	c.Rule(fmt.Sprintf("breadth-first search over histories of crew operations on a real sio.Crew (fresh crew + replay per successor; states deduplicated by live machines, captain state, shadow store and change cache): alphabet of %d operations (create m1/m2/boss with specs X/Y/Z, replace m1's state, replace m1's spec, delete m1, messages to all / to m1, a message that makes the actions of X and Y fail (X handles it with actionErrorBranches, Y with an actionErrorNode: the error settings are part of the specification source), a machine that deletes and re-creates m1 within one ProcessMsg, deletion of m2 by the host and by a machine, a captain operation that fails, captain messages with two updates of which the later one fails (also addressed to the machine the first one updates), and *restart*: the crew is replaced by one rebuilt from the shadow store, so every message boundary is a crash-and-restart point and the search goes on from the restarted crew), depth up to the bound. Invariant in every state: a store that folded every Result.Changed (as sio.Stdio does) equals the live crew (node, bindings, spec; deleted machines absent; a stored machine without state is start/{}). The same histories are also replayed with the repository's own consumer as the host - sio.Stdio folding Result.Changed into its state map and writing the state file after every message, restart = siostd's boot path reading that file back - and after every message the file must describe the live crew. Differential in every state: a crew rebuilt from that store through SetMachine (the siostd boot path) and the original give equal emissions, equal next states and equal stores (each crew's reported changes folded into its own copy of the store, which must also equal that crew) on %d continuations of length <= 2.", len(c15Ops), len(c15Conts)))
+	c.Rule(fmt.Sprintf("breadth-first search over histories of crew operations on a real sio.Crew (fresh crew + replay per successor; states deduplicated by live machines, captain state, shadow store and change cache): alphabet of %d operations (create m1/m2/boss with specs X/Y/Z, replace m1's state (also by one of 13 kB), replace m1's spec, delete m1, messages to all / to m1, a message that makes the actions of X and Y fail (X handles it with actionErrorBranches, Y with an actionErrorNode: the error settings are part of the specification source), a machine that deletes and re-creates m1 within one ProcessMsg, deletion of m2 by the host and by a machine, a captain operation that fails, captain messages with two updates of which the later one fails (also addressed to the machine the first one updates), and *restart*: the crew is replaced by one rebuilt from the shadow store, so every message boundary is a crash-and-restart point and the search goes on from the restarted crew), depth up to the bound. Invariant in every state: a store that folded every Result.Changed (as sio.Stdio does) equals the live crew (node, bindings, spec; deleted machines absent; a stored machine without state is start/{}). The same histories are also replayed with the repository's own consumer as the host - sio.Stdio folding Result.Changed into its state map and writing the state file after every message, restart = siostd's boot path reading that file back - and after every message the file must describe the live crew. Differential in every state: a crew rebuilt from that store through SetMachine (the siostd boot path) and the original give equal emissions, equal next states and equal stores (each crew's reported changes folded into its own copy of the store, which must also equal that crew) on %d continuations of length <= 2.", len(c15Ops), len(c15Conts)))
 	seen := map[string]bool{}
 	reported := map[string]bool{}
 	frontier := [][]string{{}}
